@@ -7,3 +7,6 @@ import Librfn.Props.C09
 import Librfn.Props.C19
 import Librfn.Props.C05
 import Librfn.Props.C20
+import Librfn.Props.C12
+import Librfn.Props.C13
+import Librfn.Props.C14
